@@ -99,6 +99,23 @@ impl<R: DynamicChannelRegion> DynamicChannelPlan<R> {
     }
 }
 
+#[cfg(feature = "verif-hooks")]
+impl<R: DynamicChannelRegion> DynamicChannelPlan<R> {
+    pub(crate) fn verif_plan(&self) -> crate::region::VerifPlan {
+        let mut channels = [None; NUM_CHANNELS_DYNAMIC as usize];
+        for (out, ch) in channels.iter_mut().zip(self.channels.iter()) {
+            *out = ch.map(|c| crate::region::VerifChannel {
+                frequency: c.frequency,
+                dl_frequency: c.dl_frequency,
+                dr_range: c._datarates.raw_value(),
+            });
+        }
+        let mut channel_mask = [0u8; 9];
+        channel_mask.copy_from_slice(self.channel_mask.as_ref());
+        crate::region::VerifPlan { fixed: false, channel_mask, channels }
+    }
+}
+
 pub(crate) trait DynamicChannelRegion: ChannelRegion {
     const NUM_JOIN_CHANNELS: u8;
     fn init_channels(channels: &mut ChannelPlan);
